@@ -275,33 +275,127 @@ func c17Seq(c *rep.Ctx) {
 	}
 	dropped := map[string]bool{}
 	var dropPos token.Pos
-	an.InspectShallow(recv.Body, func(x ast.Node) bool {
-		is, ok := x.(*ast.IfStmt)
-		if !ok || !an.CondImplies(recv.Info(), is.Cond, true, runAt, map[string]bool{"RUN": false}) {
-			return true
-		}
-		an.InspectShallow(is.Body, func(y ast.Node) bool {
-			ts, ok := y.(*ast.TypeSwitchStmt)
+	// the message Receive hands to handleMessage (locals resolved): the drop
+	// list must be taken over the same value
+	rinfo := recv.Info()
+	resolveMsg := func(x ast.Expr) string {
+		for i := 0; i < 4; i++ {
+			x = ast.Unparen(x)
+			id, ok := x.(*ast.Ident)
 			if !ok {
-				return true
+				break
 			}
-			cls, _ := c17Clauses(recv.Info(), ts)
-			for _, cl := range cls {
-				ret := false
-				for _, st := range cl.Clause.Body {
-					if _, ok := st.(*ast.ReturnStmt); ok {
-						ret = true
+			v, ok := rinfo.Uses[id].(*types.Var)
+			if !ok {
+				break
+			}
+			srcs := c17Sources(recv, v)
+			if len(srcs) != 1 {
+				break
+			}
+			x = srcs[0]
+		}
+		return an.ExprString(x)
+	}
+	handled := ""
+	for _, s := range recv.Graph().CallsTo(handle.Name()) {
+		if len(s.Call.Args) == 1 {
+			handled = resolveMsg(s.Call.Args[0])
+		}
+	}
+	// the arms of a type switch that leave Receive
+	dropSwitch := func(ts *ast.TypeSwitchStmt) {
+		cls, _ := c17Clauses(rinfo, ts)
+		for _, cl := range cls {
+			ret := false
+			for _, st := range cl.Clause.Body {
+				if _, ok := st.(*ast.ReturnStmt); ok {
+					ret = true
+				}
+			}
+			if ret {
+				dropped[cl.Key] = true
+				dropPos = ts.Pos()
+			}
+		}
+	}
+	var conjuncts func(x ast.Expr) []ast.Expr
+	conjuncts = func(x ast.Expr) []ast.Expr {
+		x = ast.Unparen(x)
+		if be, ok := x.(*ast.BinaryExpr); ok && be.Op == token.LAND {
+			return append(conjuncts(be.X), conjuncts(be.Y)...)
+		}
+		return []ast.Expr{x}
+	}
+	// scan(stmts, idle): idle = an enclosing condition already implies !isRunning.
+	//   if <idle> { switch msg.(type) { case A, B: return } }
+	//   if <idle> && isA(msg) { return }      isA: same-package helper whose
+	//   if <idle> { if isA(msg) { return } }  body is a type switch / type test
+	//                                         over its parameter (c17TypeSetHelper)
+	var scan func(body *ast.BlockStmt, idle bool)
+	scan = func(body *ast.BlockStmt, idle bool) {
+		if body == nil {
+			return
+		}
+		for _, st := range body.List {
+			switch x := st.(type) {
+			case *ast.TypeSwitchStmt:
+				if idle {
+					dropSwitch(x)
+				}
+			case *ast.BlockStmt:
+				scan(x, idle)
+			case *ast.IfStmt:
+				if x.Init != nil {
+					continue
+				}
+				here := idle
+				var sets [][]string
+				plain := true
+				for _, cj := range conjuncts(x.Cond) {
+					if an.CondImplies(rinfo, cj, true, runAt, map[string]bool{"RUN": false}) {
+						here = true
+						continue
+					}
+					call, ok := cj.(*ast.CallExpr)
+					if !ok {
+						plain = false
+						continue
+					}
+					hf := p.FuncOf(an.Callee(rinfo, call))
+					keys, idx, ok := c17TypeSetHelper(recv, hf)
+					if !ok || idx >= len(call.Args) || handled == "" || resolveMsg(call.Args[idx]) != handled {
+						plain = false
+						continue
+					}
+					sets = append(sets, keys)
+				}
+				if !here || !plain {
+					continue // not (only) about the idle state: nothing is concluded from it
+				}
+				if len(sets) == 0 {
+					scan(x.Body, true)
+					continue
+				}
+				if len(sets) != 1 {
+					continue
+				}
+				leaves := false
+				for _, bs := range x.Body.List {
+					if _, ok := bs.(*ast.ReturnStmt); ok {
+						leaves = true
 					}
 				}
-				if ret {
-					dropped[cl.Key] = true
-					dropPos = ts.Pos()
+				if leaves {
+					for _, k := range sets[0] {
+						dropped[k] = true
+					}
+					dropPos = x.Pos()
 				}
 			}
-			return true
-		})
-		return true
-	})
+		}
+	}
+	scan(recv.Body, false)
 	if len(dropped) == 0 {
 		c.Check("idle-drop", recv.Name(), recv.Pos(), false, "Receive no longer drops session messages while no synchronisation is running")
 	} else {
@@ -463,4 +557,143 @@ func c17Seq(c *rep.Ctx) {
 		c.Undecide("seq-stamped", "types/message.*{Seq}", "no literal found")
 	}
 	c.Floor("seq-stamped", 25)
+}
+
+// c17TypeSetHelper: f is a function of the package of `from` with one bool
+// result that answers "is the dynamic type of my parameter one of T1..Tn":
+//
+//	func isA(m interface{}) bool { switch m.(type) { case T1, T2: return true }; return false }
+//	func isA(m interface{}) bool { _, ok := m.(T1); return ok }
+//
+// Returns the type keys T1..Tn (as c17Clauses spells them) and the index of
+// the tested parameter.  Every arm must return a constant; the arms returning
+// true form the set, everything else (other arms, default, after the switch)
+// must return false.  The parameter must not be reassigned.
+func c17TypeSetHelper(from, f *an.Func) (keys []string, param int, ok bool) {
+	if f == nil || from == nil || f.Decl == nil || f.Body == nil || f.Pkg == nil || f.Pkg != from.Pkg {
+		return nil, 0, false
+	}
+	info := f.Info()
+	ft := f.Decl.Type
+	if ft.Results == nil || len(ft.Results.List) != 1 || len(ft.Results.List[0].Names) > 1 {
+		return nil, 0, false
+	}
+	if tv, has := info.Types[ft.Results.List[0].Type]; !has || !types.Identical(tv.Type, types.Typ[types.Bool]) {
+		return nil, 0, false
+	}
+	if len(ft.Results.List[0].Names) == 1 {
+		return nil, 0, false // named result: bare returns are not followed
+	}
+	var params []types.Object
+	for _, fld := range ft.Params.List {
+		if len(fld.Names) == 0 {
+			params = append(params, nil)
+		}
+		for _, nm := range fld.Names {
+			params = append(params, info.Defs[nm])
+		}
+	}
+	paramOf := func(x ast.Expr) int {
+		o := an.ObjOf(info, ast.Unparen(x))
+		if o == nil {
+			return -1
+		}
+		for i, po := range params {
+			if po == o {
+				if len(c17Sources(f, o)) != 0 {
+					return -1 // reassigned
+				}
+				return i
+			}
+		}
+		return -1
+	}
+	boolConst := func(st ast.Stmt) (val, isConst bool) {
+		rs, isRet := st.(*ast.ReturnStmt)
+		if !isRet || len(rs.Results) != 1 {
+			return false, false
+		}
+		switch c17Const(info, rs.Results[0]) {
+		case "true":
+			return true, true
+		case "false":
+			return false, true
+		}
+		return false, false
+	}
+	list := f.Body.List
+	// form 2: _, ok := p.(T); return ok
+	if len(list) == 2 {
+		as, isAs := list[0].(*ast.AssignStmt)
+		rs, isRet := list[1].(*ast.ReturnStmt)
+		if isAs && isRet && as.Tok == token.DEFINE && len(as.Lhs) == 2 && len(as.Rhs) == 1 && len(rs.Results) == 1 {
+			ta, isTA := ast.Unparen(as.Rhs[0]).(*ast.TypeAssertExpr)
+			okObj := an.ObjOf(info, as.Lhs[1])
+			if isTA && ta.Type != nil && okObj != nil && an.ObjOf(info, ast.Unparen(rs.Results[0])) == okObj {
+				if i := paramOf(ta.X); i >= 0 {
+					if tv, has := info.Types[ta.Type]; has && tv.Type != nil {
+						return []string{c17TypeKey(tv.Type)}, i, true
+					}
+				}
+			}
+		}
+	}
+	// form 1: switch p.(type) { case ...: return <const> ... } [return false]
+	if len(list) < 1 || len(list) > 2 {
+		return nil, 0, false
+	}
+	ts, isTS := list[0].(*ast.TypeSwitchStmt)
+	if !isTS || ts.Init != nil {
+		return nil, 0, false
+	}
+	subj := c17SwitchSubject(ts)
+	if subj == nil {
+		return nil, 0, false
+	}
+	param = paramOf(subj)
+	if param < 0 {
+		return nil, 0, false
+	}
+	tail, tailConst := false, false
+	if len(list) == 2 {
+		tail, tailConst = boolConst(list[1])
+		if !tailConst || tail {
+			return nil, 0, false
+		}
+	}
+	seenDefault := false
+	for _, st := range ts.Body.List {
+		cc := st.(*ast.CaseClause)
+		if len(cc.Body) == 0 && len(list) == 2 {
+			continue // empty arm: falls to the trailing `return false`
+		}
+		if len(cc.Body) != 1 {
+			return nil, 0, false
+		}
+		val, isConst := boolConst(cc.Body[0])
+		if !isConst {
+			return nil, 0, false
+		}
+		if cc.List == nil {
+			seenDefault = true
+			if val {
+				return nil, 0, false // "everything but": not a finite set
+			}
+			continue
+		}
+		if !val {
+			continue
+		}
+		for _, te := range cc.List {
+			tv, has := info.Types[te]
+			if !has || tv.Type == nil || tv.IsNil() {
+				return nil, 0, false
+			}
+			keys = append(keys, c17TypeKey(tv.Type))
+		}
+	}
+	if len(list) == 1 && !seenDefault {
+		return nil, 0, false // falls off the end: does not compile anyway
+	}
+	return keys, param, len(keys) > 0
 }
